@@ -100,6 +100,43 @@ def nondeterminism():
                 it = node.iter
                 if isinstance(it, (ast.Set, ast.SetComp)) or (isinstance(it, ast.Call) and getattr(it.func, "id", None) in ("set", "frozenset")):
                     out.append((mod, getattr(node, "lineno", getattr(it, "lineno", 0)), "iteration over a set"))
+        # names bound to a set-valued expression inside a function and then iterated / listed / joined (not through sorted())
+        for fn_node in ast.walk(tree):
+            if not isinstance(fn_node, (ast.FunctionDef, ast.AsyncFunctionDef)):
+                continue
+            setnames = set()
+
+            def setvalued(e):
+                if isinstance(e, (ast.Set, ast.SetComp)):
+                    return True
+                if isinstance(e, ast.Call):
+                    if isinstance(e.func, ast.Name) and e.func.id in ("set", "frozenset"):
+                        return True
+                    if isinstance(e.func, ast.Attribute) and e.func.attr in ("intersection", "union", "difference", "symmetric_difference"):
+                        return True
+                if isinstance(e, ast.BinOp) and isinstance(e.op, (ast.BitAnd, ast.BitOr, ast.Sub, ast.BitXor)):
+                    return setvalued(e.left) or setvalued(e.right)
+                if isinstance(e, ast.Name) and e.id in setnames:
+                    return True
+                return False
+            for _ in range(2):
+                for n in ast.walk(fn_node):
+                    if isinstance(n, ast.Assign) and setvalued(n.value):
+                        for t in n.targets:
+                            if isinstance(t, ast.Name):
+                                setnames.add(t.id)
+            for n in ast.walk(fn_node):
+                if isinstance(n, (ast.For, ast.comprehension)):
+                    it = n.iter
+                    if (isinstance(it, ast.Name) and it.id in setnames) or \
+                            (isinstance(it, ast.Call) and isinstance(it.func, ast.Attribute) and setvalued(it)):
+                        out.append((mod, getattr(n, "lineno", getattr(it, "lineno", 0)), "iteration over a set"))
+                elif isinstance(n, ast.Call):
+                    f = n.func
+                    nm = f.id if isinstance(f, ast.Name) else f.attr if isinstance(f, ast.Attribute) else None
+                    if nm in ("list", "tuple", "join", "enumerate", "extend", "update") and n.args and setvalued(n.args[0]) \
+                            and not (nm == "update" and isinstance(f, ast.Attribute) and isinstance(f.value, ast.Name) and f.value.id in setnames):
+                        out.append((mod, n.lineno, "iteration over a set"))
     return out
 
 
